@@ -225,6 +225,10 @@ def clang_fields(names):
     tu = os.path.join(common.CACHE, "work", "c06_tu_%d.cpp" % os.getpid())
     with open(tu, "w") as f:
         f.write(EXTRA_INCLUDES + "#include <xalanc/XSLT/NodeSorter.hpp>\n"
+                "#include <xalanc/XalanSourceTree/FormatterToSourceTree.hpp>\n"
+                "#include <xalanc/XMLSupport/FormatterToText.hpp>\n"
+                "#include <xalanc/XPath/MutableNodeRefList.hpp>\n"
+                "#include <xalanc/PlatformSupport/XalanDecimalFormatSymbols.hpp>\n"
                 "#include <xalanc/XalanTransformer/XalanTransformer.hpp>\n"
                 "#include <xalanc/XSLT/StylesheetExecutionContextDefault.hpp>\n"
                 "#include <xalanc/XSLT/XSLTEngineImpl.hpp>\n")
@@ -1019,6 +1023,124 @@ def main():
         nfmt = len(re.findall(r"->\s*format\s*\(", fn))
         stateful_sites.append(("ICUFormatNumberFunctor: the only format() call is the one in doICUFormat", nfmt == 1))
 
+    # ---- pooled / re-used objects: every data member holds per-use data unless allow-listed, and must be assigned by one of
+    # the re-initialisers that the borrowing site calls
+    spec_all = json.load(open(cls_file))
+    pooled_spec = spec_all.get("pooled", [])
+    key_spec = spec_all.get("cache_keys", [])
+    extra_names = set()
+    for ps in pooled_spec:
+        extra_names.add(ps["class"])
+        extra_names.update(ps.get("bases", []))
+    for ks in key_spec:
+        extra_names.add(ks["key_class"])
+    extra_fields = clang_fields(sorted(extra_names)) if extra_names else {}
+    ecpp = src["EC"][1]
+
+    def fn_bodies(text, cname, fname):
+        """bodies of every definition of fname (member of cname out of line, or inline) in text"""
+        res = []
+        for mm in re.finditer(r"(?:\b%s::)?(?<![\w~])%s\s*\(" % (cname, re.escape(fname)), text):
+            k = mm.end()
+            dpt = 1
+            while k < len(text) and dpt:
+                dpt += (text[k] == "(") - (text[k] == ")")
+                k += 1
+            rest = text[k:k + 4000]
+            m2 = re.match(r"\s*(?:const\s*)?(?::[^{;]*)?\{", rest)
+            if not m2 or ";" in rest[:m2.end()].split("{")[0].replace(":", "") and False:
+                continue
+            st = k + m2.end() - 1
+            dpt, j = 0, st
+            while j < len(text):
+                if text[j] == "{":
+                    dpt += 1
+                elif text[j] == "}":
+                    dpt -= 1
+                    if dpt == 0:
+                        break
+                j += 1
+            res.append((text[st + 1:j], text[k:st]))
+        return res
+
+    def assigns(body, mem):
+        return bool(re.search(r"\b%s\s*=(?!=)|\b%s\s*(?:\.|->)\s*(?:clear|erase|assign|resize|swap|setString)\s*\(" % (mem, mem), body))
+
+    reinit_sites = []     # (what, ok)
+    pooled_lean = []      # (class, [(member, assigned)], allow)
+    for ps in pooled_spec:
+        cname = ps["class"]
+        texts = [(f_, resolve_ifs(strip_comments(read(f_)), defined)) for f_ in ps["files"] + ps.get("reinit_files", [])]
+        members = [n_ for (n_, _, _) in extra_fields[cname]]
+        for b_ in ps.get("bases", []):
+            members += [n_ for (n_, _, _) in extra_fields[b_]]
+        # the borrowing site calls every re-initialiser
+        site_bodies = fn_bodies(ecpp, "StylesheetExecutionContextDefault", ps["site"])
+        if not site_bodies:
+            raise TErr("pooled %s: borrowing site %s not found" % (cname, ps["site"]))
+        sb = site_bodies[0][0]
+        for fn_ in ps["reinit"]:
+            reinit_sites.append(("%s: %s() is called by %s" % (cname, fn_, ps["site"]), bool(re.search(r"(?:\.|->)\s*%s\s*\(" % fn_, sb))))
+        bodies = {}
+        for fn_ in ps["reinit"]:
+            bl = []
+            for f_, t_ in texts:
+                for cn_ in [cname] + ps.get("bases", []) + ["FormatterToTextDOMString"]:
+                    bl += [b for (b, _) in fn_bodies(t_, cn_, fn_)]
+            if not bl:
+                raise TErr("pooled %s: re-initialiser %s() not found" % (cname, fn_))
+            bodies[fn_] = "\n".join(bl)
+        rows = []
+        for mem in members:
+            if mem in ps.get("allow", {}):
+                al = ps["allow"][mem]
+                ok = True
+                if "writers" in al:
+                    # assigned only in constructors and the listed functions
+                    for f_, t_ in texts:
+                        for mm in re.finditer(r"\b%s\s*=(?!=)" % mem, t_):
+                            # enclosing function name: nearest preceding "name(" at brace depth 0 -- approximated by the last
+                            # "Class::name(" or inline "name(" before the position
+                            pre = t_[:mm.start()]
+                            heads = re.findall(r"(?:\b\w+::)?(~?\w+)\s*\([^;{}]*\)\s*(?:const\s*)?(?::[^{;]*)?\{", pre)
+                            fn_ = heads[-1] if heads else "?"
+                            if fn_ not in al["writers"] and fn_ not in [cname] + ps.get("bases", []) and fn_ not in ("if", "for", "while", "switch", "else", "catch", "try", "do"):
+                                ok = False
+                                reinit_sites.append(("%s.%s (allow-listed) is assigned in %s()" % (cname, mem, fn_), False))
+                rows.append((mem, None))
+                reinit_sites.append(("%s.%s allow-listed: %s" % (cname, mem, al["why"][:80]), ok))
+                continue
+            where_ = [fn_ for fn_ in ps["reinit"] if assigns(bodies[fn_], mem)]
+            rows.append((mem, bool(where_)))
+            reinit_sites.append(("%s.%s is assigned by %s" % (cname, mem, "/".join(where_) if where_ else "NO re-initialiser"), bool(where_)))
+        pooled_lean.append((cname, rows))
+
+    # ---- caches that outlive a transformation: the key type must carry every input
+    key_sites = []
+    for ks in key_spec:
+        kc = ks["key_class"]
+        ktexts = "\n".join(resolve_ifs(strip_comments(read(f_)), defined) for f_ in ks["files"])
+        mems = [n_ for (n_, _, _) in extra_fields[kc]]
+        b_as = fn_bodies(ktexts, kc, "operator=")
+        b_eq = fn_bodies(ktexts, kc, "operator==")
+        copy = [hd for (b, hd) in fn_bodies(ktexts, kc, kc) if True]
+        copy_init = "\n".join(h for h in copy if "theSource." in h or "theRHS." in h or "other." in h)
+        if not b_as or not b_eq or not copy_init:
+            raise TErr("cache key %s: operator=, operator== or the copy constructor not found" % kc)
+        for mem in mems:
+            key_sites.append(("%s.%s copied by operator=" % (kc, mem), bool(re.search(r"\b%s\s*=\s*\w+\.%s\b" % (mem, mem), b_as[0][0]))))
+            key_sites.append(("%s.%s compared by operator==" % (kc, mem), bool(re.search(r"\b%s\s*==\s*\w+\.%s\b" % (mem, mem), b_eq[0][0]))))
+            key_sites.append(("%s.%s copied by the copy constructor" % (kc, mem), bool(re.search(r"\b%s\s*\(\s*\w+\.%s\b" % (mem, mem), copy_init))))
+    if uses_icu:
+        fnh = resolve_ifs(strip_comments(read("ICUBridge/ICUFormatNumberFunctor.hpp")), defined)
+        key_sites.append(("ICUFormatNumberFunctor: the cache is searched with XalanDecimalFormatSymbols::operator== on the whole key",
+                          bool(re.search(r"theStruct\.m_DFS\s*==\s*\(?\s*\*\s*m_DFS", fnh))))
+        key_sites.append(("ICUFormatNumberFunctor::cacheDecimalFormat files the formatter under a copy of the whole key",
+                          bool(re.search(r"\.m_DFS\s*=\s*theDFS\s*;", src["FN"][1]))))
+        cfh = resolve_ifs(strip_comments(read("ICUBridge/ICUBridgeCollationCompareFunctorImpl.hpp")), defined)
+        key_sites.append(("ICUBridgeCollationCompareFunctorImpl: the collator cache is searched by the locale name (the only input of createCollator)",
+                          bool(re.search(r"equals\s*\(\s*theStruct\.m_locale\s*,\s*m_locale\s*\)", cfh))))
+
     # ---- classification
     roles = {}
     unclassified = []
@@ -1111,6 +1233,24 @@ def main():
     L.append("def scratchSites : List (String × Bool) := [")
     L.append(",\n".join('  ("%s", %s)' % (w_, "true" if ok_ else "false") for (w_, ok_) in scratch_sites))
     L.append("]")
+    L.append("/-- pooled objects: (what, holds) -- every data member is assigned by a re-initialiser the borrowing site calls, or allow-listed -/")
+    L.append("def reinitSites : List (String × Bool) := [")
+    L.append(",\n".join('  ("%s", %s)' % (w_.replace('"', "'").replace("\\", ""), "true" if ok_ else "false") for (w_, ok_) in reinit_sites))
+    L.append("]")
+    L.append("/-- per pooled class: the re-initialisation as a statement list over its own members (member i of the class = id i;")
+    L.append("    allow-listed members have no statement), and the ids of the members holding per-use data -/")
+    L.append("def pooledReinit : List (String × List Stmt × List Nat) := [")
+    rows_ = []
+    for (cn_, rws) in pooled_lean:
+        st_ = ", ".join("⟨none, %d, .set (.seq [])⟩" % i for i, (_, a_) in enumerate(rws) if a_)
+        ids_ = ", ".join(str(i) for i, (_, a_) in enumerate(rws) if a_ is not None)
+        rows_.append('  ("%s", [%s], [%s])' % (cn_, st_, ids_))
+    L.append(",\n".join(rows_))
+    L.append("]")
+    L.append("/-- key types of caches that outlive a transformation: (what, holds) -/")
+    L.append("def cacheKeySites : List (String × Bool) := [")
+    L.append(",\n".join('  ("%s", %s)' % (w_.replace('"', "'"), "true" if ok_ else "false") for (w_, ok_) in key_sites))
+    L.append("]")
     L.append("/-- uses of cached objects that carry mutable state: (what, the state is set unconditionally before the use) -/")
     L.append("def statefulCacheSites : List (String × Bool) := [")
     L.append(",\n".join('  ("%s", %s)' % (w_.replace('"', "'"), "true" if ok_ else "false") for (w_, ok_) in stateful_sites))
@@ -1133,7 +1273,7 @@ def main():
         "sticky_written": sticky_written, "order_problems": order_problems,
         "objStackResetZeroesDepth": funcs[("OSC", "zeroes")], "paramSetClearsOther": param_set_clears_other,
         "guard_sites": guard_sites, "scratch_sites": scratch_sites, "guard_classes": guard_classes,
-        "guard_class_problems": guard_class_problems, "stateful_cache_sites": stateful_sites, "uses_icu": uses_icu,
+        "guard_class_problems": guard_class_problems, "stateful_cache_sites": stateful_sites, "reinit_sites": reinit_sites, "cache_key_sites": key_sites, "uses_icu": uses_icu,
     }
     with open(out_json, "w") as f:
         json.dump(side, f, indent=1)
